@@ -27,6 +27,7 @@ type thread struct {
 	id      int
 	name    string
 	lib     bool // spawned by instrumented library code (not by the harness)
+	daemon  bool // harness thread that may legitimately stay blocked (scripted peer)
 	origin  string
 	wake    chan struct{}
 	exited  chan struct{}
@@ -76,6 +77,7 @@ type PanicInfo struct {
 type BlockedInfo struct {
 	Thread string
 	Lib    bool
+	Daemon bool
 	Op     string
 	Site   string
 	Origin string
@@ -166,6 +168,7 @@ func point(desc string, env bool, options func() []int) int {
 		runtime.Goexit()
 	}
 	t.options = nil
+	t.h = mix(t.h, 31) // every step advances the thread's hash chain, also when it touches no shim object
 	return t.chosen
 }
 
@@ -219,6 +222,9 @@ func Go(f func()) { spawn("", true, f) }
 
 // GoNamed starts a managed harness thread.
 func GoNamed(name string, f func()) { spawn(name, false, f) }
+
+// GoDaemon starts a harness thread that may stay blocked at the end without this being a finding.
+func GoDaemon(name string, f func()) { spawn(name, false, f); S.threads[len(S.threads)-1].daemon = true }
 
 func spawn(name string, lib bool, f func()) {
 	t := &thread{id: len(S.threads), name: name, lib: lib, wake: make(chan struct{}), exited: make(chan struct{})}
@@ -295,6 +301,14 @@ func panicSite() string {
 
 // Run executes one schedule: the prefix choices, then alternative 0 at every later point.
 func Run(prefix []int, maxSteps int, wantTrace bool, main func(), cut func(step int, key uint64) bool) *Exec {
+	return RunMode(prefix, maxSteps, wantTrace, false, main, cut)
+}
+
+// RunMode: with delay=true the cost model is delay bounding (Emmi/Qadeer/Rakamaric): the deterministic
+// scheduler continues the running thread, or else picks the lowest enabled thread; choosing any other
+// thread costs one unit even when the running thread is blocked. With delay=false it is preemption
+// bounding: switching away from a blocked or finished thread is free.
+func RunMode(prefix []int, maxSteps int, wantTrace bool, delay bool, main func(), cut func(step int, key uint64) bool) *Exec {
 	s := &Exec{parked: make(chan struct{}), prefix: prefix, maxSteps: maxSteps, doneReg: map[<-chan struct{}]*Ctx{}, cut: cut, wantTrace: wantTrace, Notes: map[string]string{}}
 	S = s
 	spawn("main", false, main)
@@ -330,6 +344,13 @@ func Run(prefix []int, maxSteps int, wantTrace bool, main func(), cut func(step 
 		}
 		if len(opts) == 0 {
 			break
+		}
+		if delay {
+			for i := range opts {
+				if opts[i].t != opts[0].t {
+					opts[i].cost |= CostPre
+				}
+			}
 		}
 		if step >= maxSteps {
 			s.Truncated = true
@@ -374,7 +395,7 @@ func Run(prefix []int, maxSteps int, wantTrace bool, main func(), cut func(step 
 			t.wake <- struct{}{}
 			<-t.exited
 			if !s.WasCut && !s.Truncated && len(s.Fatal) == 0 {
-				s.Blocked = append(s.Blocked, BlockedInfo{Thread: t.name, Lib: t.lib, Op: t.opDesc, Site: t.site, Origin: t.origin})
+				s.Blocked = append(s.Blocked, BlockedInfo{Thread: t.name, Lib: t.lib, Daemon: t.daemon, Op: t.opDesc, Site: t.site, Origin: t.origin})
 			}
 		}
 	}
